@@ -8,6 +8,7 @@ import (
 	"sort"
 	"strconv"
 	"strings"
+	"sync"
 	"sync/atomic"
 	"time"
 
@@ -449,6 +450,90 @@ func (l *lift[A, B]) run(inputs []A) {
 			k = 3
 		}
 		l.stream(ins[:k], want[:k], werr[:k], 0, errSrc)
+	}
+	l.concurrent(ins, want, werr)
+}
+
+// concurrent: ONE operator value, four goroutines subscribing pipelines built from it at the same moment,
+// each over its own copy of the inputs the reference accepts: every subscriber gets the reference's values.
+func (l *lift[A, B]) concurrent(ins []A, want []B, werr []error) {
+	var idx []int
+	for j := range ins {
+		if werr[j] == nil && len(idx) < 120 {
+			idx = append(idx, j)
+		}
+	}
+	if len(idx) < 2 {
+		return
+	}
+	const k = 4
+	type out struct {
+		vals []B
+		err  error
+		pan  any
+	}
+	outs := make([]out, k)
+	start := make(chan struct{})
+	var wg sync.WaitGroup
+	for g := 0; g < k; g++ {
+		g := g
+		items := make([]A, len(idx))
+		for i, j := range idx {
+			items[i] = cp(ins[j])
+		}
+		wg.Add(1)
+		go func() {
+			defer wg.Done()
+			defer func() { outs[g].pan = recover() }()
+			<-start
+			outs[g].vals, outs[g].err = ro.Collect(l.apply(ro.Just(items...)))
+		}()
+	}
+	// what the operator delivers for these inputs when nobody else is subscribed (whether THAT agrees with
+	// the reference is the business of the streams above)
+	var alone []B
+	{
+		items := make([]A, len(idx))
+		for i, j := range idx {
+			items[i] = cp(ins[j])
+		}
+		var err error
+		func() {
+			defer func() { recover() }()
+			alone, err = ro.Collect(l.apply(ro.Just(items...)))
+		}()
+		if err != nil || len(alone) != len(idx) {
+			return
+		}
+	}
+	close(start)
+	wg.Wait()
+	what := l.op + l.param
+	for g, o := range outs {
+		l.t.events += int64(len(o.vals))
+		switch {
+		case o.pan != nil:
+			l.t.fail(l.op, "concurrent-subscriptions-disturb-each-other", fmt.Sprintf("%s: one operator value subscribed by %d goroutines at once: subscriber %d panicked with %v", what, k, g, o.pan))
+			return
+		case o.err != nil:
+			l.t.fail(l.op, "concurrent-subscriptions-disturb-each-other", fmt.Sprintf("%s: one operator value subscribed by %d goroutines at once over inputs %s accepts: subscriber %d ended with Error(%s)", what, k, l.ref, g, short(o.err.Error())))
+			return
+		case len(o.vals) != len(idx):
+			l.t.fail(l.op, "concurrent-subscriptions-disturb-each-other", fmt.Sprintf("%s: one operator value subscribed by %d goroutines at once: subscriber %d got %d values for %d inputs", what, k, g, len(o.vals), len(idx)))
+			return
+		}
+		for i, j := range idx {
+			msg := ""
+			if l.verify != nil {
+				msg = l.verify(ins[j], o.vals[i])
+			} else if !l.equal(o.vals[i], alone[i]) {
+				msg = "subscribed alone, the same operator value delivers " + short(deep(alone[i]))
+			}
+			if msg != "" {
+				l.t.fail(l.op, "concurrent-subscriptions-disturb-each-other", fmt.Sprintf("%s: one operator value subscribed by %d goroutines at once: subscriber %d got %s for input %s: %s", what, k, g, short(deep(o.vals[i])), short(deepCap(ins[j])), msg))
+				return
+			}
+		}
 	}
 }
 
